@@ -43,6 +43,10 @@ Containers == { Arr(<<>>), Map(<<>>), AllDoubles,
                 Map(<< <<K(<<97>>), Arr(<< <<"uint", <<1>>>>, <<"tstr", <<120>>>> >>)>>, <<K(<<>>), Map(<< <<K(<<34>>), F64(<<255,239,255,255,255,255,255,255>>)>> >>)>> >>),
                 Arr(<< Map(<< <<K(<<97>>), <<"uint", <<1>>>>>>, <<K(<<98>>), F64(<<127,225,204,243,133,235,200,160>>)>> >>), Map(<< <<K(<<97>>), <<"tstr", <<44, 34>>>>>>, <<K(<<98>>), <<"null">>>> >>) >>),
                 Arr(<< Arr(<< <<"uint", <<1>>>>, F64(<<255,225,204,243,133,235,200,160>>) >>), Arr(<< <<"tstr", <<10>>>>, <<"bool", FALSE>> >>) >>) }
+\* strings carrying a semantic tag other than bigint / bigdec (tag number = the enumerator of jsoncons::semantic_tag), bare and as a member
+\* value: the text may or may not have the form the tag announces - an encoder may refuse it, through its error channel
+TagTexts == { "", "abc", "0123456789abcdef01234567", "/a.*b/i", "/", "1.5", "-1", "2020-01-01T00:00:00Z", "0x1.8p3", "aGVsbG8" }
+TagStrs == { <<w, t, x>> : w \in {"tagstr", "tagmap"}, t \in (4..21) \ {13}, x \in TagTexts }
 Values == Atoms \cup Bigs \cup Containers
 
 \* ---- option sets (fields: numbers are enumerators in declaration order, 255 = leave the default)
@@ -64,6 +68,7 @@ OptSets == {Def} \cup Floats \cup Singles \cup (IF Big THEN Layouts ELSE { o \in
 HasDouble(v) == v \in Doubles \/ v = AllDoubles \/ v \in Containers
 Cases == { [k |-> "enc", v |-> v, o |-> o] : v \in { x \in Values : HasDouble(x) }, o \in Floats }
     \cup { [k |-> "enc", v |-> v, o |-> o] : v \in Values, o \in OptSets \ Floats }
+    \cup { [k |-> "enc", v |-> v, o |-> Def] : v \in TagStrs }
 Init == phase = 0 /\ c = [k |-> "none"]
 Next == phase = 0 /\ phase' = 1 /\ c' \in Cases
 Emit == phase = 1 => PrintT(ToJson(c))
